@@ -22,6 +22,8 @@ import SvgVerif.Model.ArcParam
 import SvgVerif.Model.ArcPointToT
 import SvgVerif.Model.Area
 import SvgVerif.Model.Tangent
+import SvgVerif.Model.BezierN
+import SvgVerif.Model.ArcBBox
 /-! Correspondence driver: one operation per input line, one canonical result per
 output line.  Run as `lake env lean --run Driver.lean < ops.txt`.  The Python
 harness feeds the same operations to the real svgpathtools code and diffs. -/
@@ -519,6 +521,8 @@ open SvgVerif.Model.Doc in
 def parseDocOp : List String → Option Op
   | "P" :: pid :: names => pid.toNat?.map (fun p => Op.addPath names p)
   | "G" :: names => some (Op.addGroup names)
+  | "R" :: nm :: parent => some (Op.rawGroup parent nm)
+  | "Q" :: names => some (Op.query names)
   | _ => none
 
 /-- split a word list at the separator `;` -/
@@ -538,6 +542,7 @@ def runDoc (ws : List String) : String :=
     | some (t, []), some ops =>
       match docPaths (run t ops) with
       | some ps => "ok " ++ " ".intercalate (ps.map toString) ++ " | all " ++ " ".intercalate ((allPaths (run t ops)).map toString)
+          ++ " | q " ++ " ; ".intercalate ((runQueries t ops).map fun l => " ".intercalate ((l.toArray.qsort (· < ·)).toList.map toString))
       | none => "fuel"
     | _, _ => "bad-args"
   | _ => "bad-args"
@@ -687,6 +692,57 @@ def runTanLimit (args : List String) : String :=
       | .noLimit => "nolimit"
       | .fuel => "fuel"
     | _, _ => "bad-args"
+  | _ => "bad-args"
+
+/-! C08 arcs: `arcbbox startx starty endx endy cx cy rx ry phi cosphi sinphi theta delta`; the math
+functions are the same exact stand-ins the Python runner installs: with `u = x/2`,
+`cos x := (1-u²)/(1+u²)`, `sin x := 2u/(1+u²)`, `tan := sin/cos`, `atan y := (y/(1+|y|))·11/7`,
+`pi := 22/7` -/
+def standinFn : SvgVerif.Model.ArcBBox.Fn Rat :=
+  let c : Rat → Rat := fun x => (1 - (x / 2) * (x / 2)) / (1 + (x / 2) * (x / 2))
+  let s : Rat → Rat := fun x => 2 * (x / 2) / (1 + (x / 2) * (x / 2))
+  { cos := c, sin := s, tan := fun x => s x / c x,
+    atan := fun y => y / (1 + sabs y) * (11 / 7), pi := 22 / 7 }
+
+def runArcBBox (args : List String) : String :=
+  match parseRats? args with
+  | some [sx, sy, ex, ey, cx, cy, rx, ry, phi, cphi, sphi, th, de] =>
+    match SvgVerif.Model.ArcBBox.bbox standinFn ⟨sx, sy, ex, ey, cx, cy, rx, ry, phi, cphi, sphi, th, de⟩ with
+    | some (a, b, c, d) => s!"{showRat a} {showRat b} {showRat c} {showRat d}"
+    | none => "none"
+  | _ => "bad-args"
+
+/-! C19 general degree: `bezn <sub> args` -/
+open SvgVerif.Model.BezierN in
+def runBezN (args : List String) : String :=
+  let shPair : Option (List Rat × List Rat) → String
+    | some (l, r) => showRats l ++ " | " ++ showRats r
+    | none => "IndexError"
+  match args with
+  | ["nck", n, k] =>
+    match n.toNat?, k.toNat? with
+    | some n, some k => toString (nChooseK n k)
+    | _, _ => "bad-args"
+  | ["bern", n, t] =>
+    match n.toNat?, parseRat? t with
+    | some n, some t => showRats (bernsteinList n t)
+    | _, _ => "bad-args"
+  | "point" :: t :: ps =>
+    match parseRat? t, parseRats? ps with
+    | some t, some ps => showRat (bezierPoint ps t)
+    | _, _ => "bad-args"
+  | "b2p" :: o :: ps =>
+    match parseRats? ps with
+    | some ps => showRats (bezier2polynomial ps (o == "1"))
+    | none => "bad-args"
+  | "split" :: t :: ps =>
+    match parseRat? t, parseRats? ps with
+    | some t, some ps => shPair (splitBezier ps t)
+    | _, _ => "bad-args"
+  | "halve" :: ps =>
+    match parseRats? ps with
+    | some ps => shPair (halveBezier ps (1 / 2))
+    | none => "bad-args"
   | _ => "bad-args"
 
 def handle (cmd : String) (args : List String) : String :=
@@ -861,6 +917,8 @@ def handle (cmd : String) (args : List String) : String :=
   | "flat" => runFlat args
   | "fromgroup" => runFromGroup args
   | "smooth" => runSmooth args
+  | "arcbbox" => runArcBBox args
+  | "bezn" => runBezN args
   | "sjoint" => runSJoint args
   | "seglen" => runSegLen args
   | "pathlen" => runPathLen args
